@@ -275,7 +275,7 @@ theorem readUGo_encU (v : Nat) (rest : Bytes) :
 theorem readU_encU (pre : Bytes) (v : Nat) (rest : Bytes) :
     readU (pre ++ encU v ++ rest) pre.length = .ok (v, pre.length + (encU v).length) := by
   unfold readU
-  simp [readUGo_encU]
+  simp [readUGo_encU, shift]
 
 /-! canonical form -/
 
